@@ -218,12 +218,14 @@ def worker_orders(cfg, tier):
 
 def worker_threading(inst, tier):
     """L-step (engine B): inside one compiled partition every executed step is handed the state returned by the node's previous executed
-    step (or the graph state's, for the first), its own slot's seq/ts, the unchanged rng/params; afterwards the graph state carries the last
-    returned state and seq+1.  Run masks, seqs and the whole state are symbolic; step functions are uninterpreted."""
+    step (or the graph state's, for the first), the rng that step returned (every step advances its key), its own slot's seq/ts and the
+    unchanged params; afterwards the graph state carries the last returned state and rng and seq+1.  Run masks, seqs and the whole state are
+    symbolic; step functions are uninterpreted."""
     import jax
     from vlib import cg, fixtures, jx, smt
 
-    nodes, cgr, g = cg.build(inst, node_cls=fixtures.OracleNode)
+    nodes, cgr, g = cg.build(inst, node_cls=fixtures.OracleNodeRng)
+    tr_split = jx.Traced(lambda r: jax.random.split(r)[0], jax.random.PRNGKey(0))
     gs0 = g.init(jax.random.PRNGKey(1))
     sup = g.supervisor.name
     per_kind, uniform, n_gen = cg.slot_order(g)
@@ -245,18 +247,22 @@ def worker_threading(inst, tier):
         conj = []
         cur_state = alg.z(gin.state[kind].x.item(), "f")
         cur_seq = None
+        cur_rng = [alg.z(x, "i") for x in gin.rng[kind].flat()]
         for c, (sname, rnd) in zip(cs, slots):
             sl = gin.timings_eps.slots[sname]
             G = alg.z(c["guard"]) if kind != sup else z3.BoolVal(True)
             seq_s = cg.sel(alg, sl.seq, step_in).item()
             conj.append(z3.Implies(G, z3.And(alg.z(c["args"][2].item(), "f") == cur_state, alg.z(c["args"][0].item(), "i") == seq_s)))
+            handed = [alg.z(x, "i") for x in c["args"][-1].flat()]
+            conj.append(z3.Implies(G, z3.And(*[h == r for h, r in zip(handed, cur_rng)])))
+            nxt = [alg.z(x, "i") for x in tr_split.run(it, [c["args"][-1]]).flat()]  # the key the step returns: split(handed)[0]
+            cur_rng = [z3.If(G, n_, r) for n_, r in zip(nxt, cur_rng)]
             ret_state = alg.z(c["outs"][0].v[0], "f")
             cur_state = z3.If(G, ret_state, cur_state)
             cur_seq = z3.If(G, seq_s + 1, cur_seq) if cur_seq is not None else z3.If(G, seq_s + 1, alg.z(gin.seq[kind].item(), "i"))
         conj.append(alg.z(out.state[kind].x.item(), "f") == cur_state)
         conj.append(alg.z(out.seq[kind].item(), "i") == cur_seq)
-        e = jx.sa_equal(alg, out.rng[kind], gin.rng[kind])
-        conj.append(e if not isinstance(e, bool) else z3.BoolVal(e))
+        conj.append(z3.And(*[alg.z(x, "i") == r for x, r in zip(out.rng[kind].flat(), cur_rng)]))
         e = jx.tree_equal(alg, out.params[kind], gin.params[kind])
         conj.append(e if not isinstance(e, bool) else z3.BoolVal(e))
         v, m, s = smt.check(assume, z3.And(*conj), 120)
@@ -281,11 +287,15 @@ def _replay_threading(inst, model, tr, flat, kind):
         out = tr.fn(*args)
         prev = float(gs.state[kind].x)
         exp_seq = int(gs.seq[kind])
+        cur_rng = np.asarray(gs.rng[kind])
         bad = False
         for tag, a in fixtures.CALL_LOG:
             if tag != f"oracle_step_{kind}":
                 continue
             exp_seq = int(a[0]) + 1
+            if not np.array_equal(np.asarray(a[-1]), cur_rng):
+                bad = True
+            cur_rng = np.asarray(jax.random.split(jax.numpy.asarray(a[-1]))[0])
             if abs(float(a[2]) - prev) > 1e-5 * max(1.0, abs(prev)):
                 bad = True
             # what the logging oracle returned as new state: element 0 of its deterministic result
@@ -296,7 +306,7 @@ def _replay_threading(inst, model, tr, flat, kind):
             prev = float(np.float32(0.125 + h))
         if abs(float(out.state[kind].x) - prev) > 1e-4 * max(1.0, abs(prev)):
             bad = True
-        if int(out.seq[kind]) != exp_seq:
+        if int(out.seq[kind]) != exp_seq or not np.array_equal(np.asarray(out.rng[kind]), cur_rng):
             bad = True
         return bad
     except BaseException:  # noqa
